@@ -490,6 +490,22 @@ def run(ctx):
                         else:
                             ok = e.get("k") == "bin" and e["op"] == binop and local_of(e["l"]) == bl and local_of(e["r"]) == br
                             detail = "Data::%s(%s); expected left %s right" % (want, describe(e), binop)
+                    elif want == "Integer" and sat is None and body.get("k") == "match" and bl is not None and br is not None:
+                        # total form of the remainder: match left.checked_rem(right) { Some(r) => Data::Integer(r), None => Data::Error(..) }
+                        scr = peel(body["e"], NO_T)
+                        good_scr = scr.get("k") == "mcall" and scr["m"] == "checked_rem" and local_of(scr["r"]) == bl and local_of(scr["a"][0]) == br
+                        some_ok, none_ok = False, False
+                        for a2 in body["arms"]:
+                            p2 = a2["pat"]
+                            b2 = peel(hirq_only(a2["body"]), NO_T)
+                            if p2.get("k") in ("pts", "pstruct") and str(p2["r"].get("p", "")).endswith("::Some"):
+                                subs = p2.get("a") or [f[1] for f in p2.get("f", [])]
+                                some_ok = (b2.get("k") == "call" and b2.get("p") == D + "Integer" and subs and subs[0].get("k") == "bind"
+                                           and local_of(b2["a"][0]) == subs[0]["b"])
+                            else:
+                                none_ok = b2.get("k") == "call" and b2.get("p") == D + "Error"
+                        ok = good_scr and some_ok and none_ok
+                        detail = "left.checked_rem(right): Some(r) -> Data::Integer(r): %s, None -> Data::Error: %s" % (some_ok, none_ok)
                     else:
                         detail = "arm builds %s, expected Data::%s(..)" % (describe(body), want)
                 ctx.ob("R10.4", site_key(fn, "(%s, %s)" % combo), ok, fn.where, detail)
